@@ -21,8 +21,9 @@ mod serde_rt;
 
 use std::io::Write;
 use std::str::FromStr;
-use std::sync::Arc;
+use std::sync::{Arc, Barrier};
 use kharness::{Args, Rng, Scratch};
+use krill::verif::lockpoint;
 use krill::api::history::{CommandHistoryCriteria, CommandHistoryResult};
 use krill::commons::eventsourcing::{AggregateStore, WalStore};
 use krill::commons::storage::{Ident, KeyValueStore, StorageSystem};
@@ -165,6 +166,64 @@ fn view_wal(kv: &KeyValueStore, h: &str) -> String {
     )
 }
 
+/// The critical sections one store call ran, from its events in the log of `krill::verif::lockpoint`
+/// (in order): `<kind>:<op>.<op>…` joined by `|`; kind `s` = a section on the scope lock of `h`, `x` = on
+/// another scope's lock, `g` = on the store-wide lock, `o` = operations outside every section; `-` = nothing.
+pub fn sections_of<'a>(events: impl Iterator<Item = &'a lockpoint::Event>, h: &str) -> String {
+    let mut out: Vec<(String, Vec<&'static str>)> = Vec::new();
+    let mut open = false;
+    for e in events {
+        match e.site {
+            "wait" => {}
+            "acq" => {
+                let kind = match e.scope.as_deref() {
+                    None => "g",
+                    Some(s) if s == h => "s",
+                    Some(_) => "x",
+                };
+                // a nested acquisition would show as a section inside a section: keep it visible
+                out.push((if open { format!("n{kind}") } else { kind.to_string() }, Vec::new()));
+                open = true;
+            }
+            "rel" => open = false,
+            site => {
+                // outside every section: its own group
+                if !open && out.last().map(|(k, _)| k != "o").unwrap_or(true) {
+                    out.push(("o".into(), Vec::new()));
+                }
+                out.last_mut().expect("group").1.push(site);
+            }
+        }
+    }
+    if out.is_empty() {
+        "-".into()
+    } else {
+        out.iter().map(|(k, ops)| format!("{k}:{}", ops.join("."))).collect::<Vec<_>>().join("|")
+    }
+}
+
+/// Switches the event log off again when the traced call returns or panics.
+struct TraceGuard;
+impl Drop for TraceGuard {
+    fn drop(&mut self) {
+        lockpoint::set_thread(None, 0);
+        lockpoint::enable(false);
+    }
+}
+
+/// Runs one store call with the event log on; returns its result and the sections it ran (` sec=…`).
+pub fn traced<T>(h: &str, f: impl FnOnce() -> T) -> (T, String) {
+    lockpoint::enable(true);
+    lockpoint::set_thread(Some(9_999), 0x5EC7_1045);
+    lockpoint::set_op(0);
+    let r = {
+        let _g = TraceGuard;
+        f()
+    };
+    let log = lockpoint::take_log();
+    (r, format!(" sec={}", sections_of(log.iter(), h)))
+}
+
 pub struct Sys<const IV: u64> {
     pub storage: StorageSystem,
     pub scratch: Option<Scratch>,
@@ -247,6 +306,69 @@ impl<const IV: u64> Sys<IV> {
         fmt_reg(st.get_latest(&hd))
     }
 
+    /// Op `raceadd`.  Own store objects (one with, one without history cache; the long-lived ones keep no cache
+    /// entry of these handles), the event log and the yield points on.  Counts over all rounds: `acks` –
+    /// acknowledged init commands, `dups` – refused as duplicate, `other` – any other result, `reload` – rounds
+    /// in which exactly one caller was acknowledged and both the stored `command-0` and what a fresh store
+    /// loads are that caller's, `multi` – `add` calls whose storage operations were not in exactly one
+    /// critical section.  All of it is independent of who wins.
+    fn race_add(&self, threads: usize, rounds: usize, h: &str) -> String {
+        let stores: Arc<Vec<AggregateStore<Reg<IV>>>> =
+            Arc::new((0..2).map(|k| AggregateStore::create(&self.storage, NS, k == 0).expect("store")).collect());
+        self.apply_fault();
+        let (mut acks, mut dups, mut other, mut reload, mut multi) = (0usize, 0usize, 0usize, 0usize, 0usize);
+        lockpoint::enable(true);
+        let _guard = TraceGuard;
+        for r in 0..rounds {
+            let hr = format!("{h}{r}");
+            let barrier = Arc::new(Barrier::new(threads));
+            let joins: Vec<_> = (0..threads)
+                .map(|k| {
+                    let (stores, barrier, hr) = (stores.clone(), barrier.clone(), hr.clone());
+                    let seed = self.scratch_seed ^ ((r as u64) << 8) ^ k as u64;
+                    std::thread::spawn(move || {
+                        lockpoint::set_thread(Some(k as u32 + 1), seed.wrapping_mul(0x9E37_79B9_7F4A_7C15));
+                        lockpoint::set_op(r as u64);
+                        barrier.wait();
+                        let res = std::panic::catch_unwind(std::panic::AssertUnwindSafe(|| {
+                            fmt_reg(stores[k % 2].add(RegInit { handle: handle(&hr), actor: format!("t{k}"), name: format!("n{k}") }))
+                        }))
+                        .unwrap_or_else(|_| "panic".to_string());
+                        lockpoint::set_thread(None, 0);
+                        res
+                    })
+                })
+                .collect();
+            let res: Vec<String> = joins.into_iter().map(|j| j.join().expect("thread")).collect();
+            let oks: Vec<usize> = res.iter().enumerate().filter(|(_, x)| x.starts_with("ok:")).map(|(k, _)| k).collect();
+            acks += oks.len();
+            dups += res.iter().filter(|x| *x == "err:duplicate").count();
+            other += res.iter().filter(|x| !x.starts_with("ok:") && *x != "err:duplicate").count();
+            if let [k] = oks.as_slice() {
+                let hd = handle(&hr);
+                let scope = Ident::from_handle(&hd);
+                let stored: Option<Value> = self.kv.get(Some(&scope), Ident::make("command-0.json")).expect("command-0");
+                let actor_ok = stored.map(|v| v["actor"].as_str() == Some(format!("t{k}").as_str())).unwrap_or(false);
+                let fresh: AggregateStore<Reg<IV>> = AggregateStore::create(&self.storage, NS, false).expect("fresh store");
+                let name_ok = fresh.get_latest(&hd).map(|a| a.name == format!("n{k}")).unwrap_or(false);
+                if actor_ok && name_ok {
+                    reload += 1;
+                }
+            }
+        }
+        let log = lockpoint::take_log();
+        for r in 0..rounds {
+            let hr = format!("{h}{r}");
+            for k in 0..threads {
+                let sec = sections_of(log.iter().filter(|e| e.thread == k as u32 + 1 && e.op == r as u64), &hr);
+                if sec.split('|').count() != 1 || !sec.starts_with("s:") {
+                    multi += 1;
+                }
+            }
+        }
+        format!("ret=ok acks={acks} dups={dups} other={other} reload={reload} multi={multi}")
+    }
+
     fn wfresh(&self, h: &str) -> String {
         let st: WalStore<Bag> = WalStore::create(&self.storage, WNS).expect("fresh wal store");
         self.apply_fault();
@@ -270,6 +392,9 @@ impl<const IV: u64> Sys<IV> {
             // (independent of the stores; see serde_rt.rs)
             ["serde", ty, shape] => serde_rt::run(ty, shape),
             ["conclog", _] => "ev=-".into(),
+            // C07: `threads` threads, released together, each send an init command for the same new handle
+            // `<h><round>`, `rounds` times over (a self-contained concurrent op: replays like any other)
+            ["raceadd", threads, rounds, h] => self.race_add(threads.parse().expect("threads"), rounds.parse().expect("rounds"), h),
             // not generated, no model: manual experiments only (`AggregateStore::warm` / `list`)
             ["warm", i] => {
                 let r = self.stores[inst(i)].warm();
@@ -282,21 +407,21 @@ impl<const IV: u64> Sys<IV> {
                 "ret=ok".into()
             }
             ["add", i, h, actor, name] => {
-                let r = self.stores[inst(i)].add(RegInit { handle: handle(h), actor: actor.to_string(), name: name.to_string() });
-                format!("ret={} {}", fmt_reg(r), view_agg(&self.kv, h))
+                let (r, sec) = traced(h, || self.stores[inst(i)].add(RegInit { handle: handle(h), actor: actor.to_string(), name: name.to_string() }));
+                format!("ret={} {}{sec}", fmt_reg(r), view_agg(&self.kv, h))
             }
             ["cmd", i, h, actor, kind, rest @ ..] => {
                 let details = RegDetails::parse(kind, rest.first().copied()).unwrap_or_else(|| panic!("bad cmd: {op}"));
-                let r = self.stores[inst(i)].command(RegCmd { handle: handle(h), actor: actor.to_string(), details });
-                format!("ret={} {}", fmt_reg(r), view_agg(&self.kv, h))
+                let (r, sec) = traced(h, || self.stores[inst(i)].command(RegCmd { handle: handle(h), actor: actor.to_string(), details }));
+                format!("ret={} {}{sec}", fmt_reg(r), view_agg(&self.kv, h))
             }
             ["get", i, h] => {
-                let r = self.stores[inst(i)].get_latest(&handle(h));
-                format!("ret={} {}", fmt_reg(r), view_agg(&self.kv, h))
+                let (r, sec) = traced(h, || self.stores[inst(i)].get_latest(&handle(h)));
+                format!("ret={} {}{sec}", fmt_reg(r), view_agg(&self.kv, h))
             }
             ["snap", i, h] => {
-                let r = self.stores[inst(i)].save_snapshot(&handle(h));
-                format!("ret={} {}", fmt_reg(r), view_agg(&self.kv, h))
+                let (r, sec) = traced(h, || self.stores[inst(i)].save_snapshot(&handle(h)));
+                format!("ret={} {}{sec}", fmt_reg(r), view_agg(&self.kv, h))
             }
             ["list", i] => {
                 let mut l: Vec<String> = self.stores[inst(i)].list().map(|v| v.iter().map(|h| h.to_string()).collect()).unwrap_or_else(|_| vec!["err".into()]);
@@ -304,8 +429,8 @@ impl<const IV: u64> Sys<IV> {
                 format!("ret={}", if l.is_empty() { "-".to_string() } else { l.join(",") })
             }
             ["has", i, h] => {
-                let r = self.stores[inst(i)].has(&handle(h)).map(|b| b.to_string()).unwrap_or("err".into());
-                format!("ret={r}")
+                let (r, sec) = traced(h, || self.stores[inst(i)].has(&handle(h)).map(|b| b.to_string()).unwrap_or("err".into()));
+                format!("ret={r}{sec}")
             }
             ["restart", i] => {
                 let i = inst(i);
@@ -315,8 +440,8 @@ impl<const IV: u64> Sys<IV> {
             }
             ["drop", i, h] => {
                 let i = inst(i);
-                let r = self.lifted(|s| s.stores[i].drop_aggregate(&handle(h)));
-                format!("ret={} {}", if r.is_ok() { "ok" } else { "err" }, view_agg(&self.kv, h))
+                let (r, sec) = self.lifted(|s| traced(h, || s.stores[i].drop_aggregate(&handle(h))));
+                format!("ret={} {}{sec}", if r.is_ok() { "ok" } else { "err" }, view_agg(&self.kv, h))
             }
             ["hist", i, h, offset, rows, after] => {
                 let crit = CommandHistoryCriteria {
@@ -325,7 +450,8 @@ impl<const IV: u64> Sys<IV> {
                     after_version: after.parse().ok(),
                     ..Default::default()
                 };
-                match self.stores[inst(i)].command_history(&handle(h), crit) {
+                let (res, sec) = traced(h, || self.stores[inst(i)].command_history(&handle(h), crit));
+                match res {
                     Ok(hist) => {
                         let recs: Vec<String> = hist
                             .commands
@@ -340,7 +466,7 @@ impl<const IV: u64> Sys<IV> {
                             })
                             .collect();
                         format!(
-                            "ret=ok total={} offset={} recs={} {}",
+                            "ret=ok total={} offset={} recs={} {}{sec}",
                             hist.total,
                             hist.offset,
                             if recs.is_empty() { "-".into() } else { recs.join(",") },
@@ -363,21 +489,21 @@ impl<const IV: u64> Sys<IV> {
             // ---- WAL store
             ["wadd", i, h, items] => {
                 let items = if *items == "-" { Default::default() } else { items.split('.').map(|x| x.parse().expect("item")).collect() };
-                let r = self.wstores[inst(i)].add(&handle(h), Bag { revision: 0, items });
-                format!("ret={} {}", if r.is_ok() { "ok" } else { "err:kv" }, view_wal(&self.wkv, h))
+                let (r, sec) = traced(h, || self.wstores[inst(i)].add(&handle(h), Bag { revision: 0, items }));
+                format!("ret={} {}{sec}", if r.is_ok() { "ok" } else { "err:kv" }, view_wal(&self.wkv, h))
             }
             ["wcmd", i, h, kind, rest @ ..] => {
                 let kind = BagKind::parse(kind, rest.first().copied()).unwrap_or_else(|| panic!("bad wcmd: {op}"));
-                let r = self.wstores[inst(i)].send_command(BagCmd { handle: handle(h), kind });
-                format!("ret={} {}", fmt_bag(r), view_wal(&self.wkv, h))
+                let (r, sec) = traced(h, || self.wstores[inst(i)].send_command(BagCmd { handle: handle(h), kind }));
+                format!("ret={} {}{sec}", fmt_bag(r), view_wal(&self.wkv, h))
             }
             ["wget", i, h] => {
-                let r = self.wstores[inst(i)].get_latest(&handle(h));
-                format!("ret={} {}", fmt_bag(r), view_wal(&self.wkv, h))
+                let (r, sec) = traced(h, || self.wstores[inst(i)].get_latest(&handle(h)));
+                format!("ret={} {}{sec}", fmt_bag(r), view_wal(&self.wkv, h))
             }
             ["wsnap", i, h] => {
-                let r = self.wstores[inst(i)].update_snapshot(&handle(h));
-                format!("ret={} {}", fmt_bag(r), view_wal(&self.wkv, h))
+                let (r, sec) = traced(h, || self.wstores[inst(i)].update_snapshot(&handle(h)));
+                format!("ret={} {}{sec}", fmt_bag(r), view_wal(&self.wkv, h))
             }
             ["wrestart", i] => {
                 let i = inst(i);
@@ -387,8 +513,8 @@ impl<const IV: u64> Sys<IV> {
             }
             ["wremove", i, h] => {
                 let i = inst(i);
-                let r = self.lifted(|s| s.wstores[i].remove(&handle(h)));
-                format!("ret={} {}", if r.is_ok() { "ok" } else { "err" }, view_wal(&self.wkv, h))
+                let (r, sec) = self.lifted(|s| traced(h, || s.wstores[i].remove(&handle(h))));
+                format!("ret={} {}{sec}", if r.is_ok() { "ok" } else { "err" }, view_wal(&self.wkv, h))
             }
             ["wcheck", h] => {
                 let hd = handle(h);
